@@ -25,6 +25,9 @@ type cs struct {
 	Open      string `json:"open"`
 	Cors      bool   `json:"cors"`    // the unprotected path that shares the backend enables CORS
 	PubAuth   bool   `json:"pubauth"` // the other path of the backend declares an auth-url of its own (and so is protected too)
+	Src       string `json:"src"`     // ingress | service: where the authentication is declared
+	OPrefix   string `json:"oprefix"` // default | root: oauth-uri-prefix
+	Elder     string `json:"elder"`   // none | backend | frontend: an older Ingress of the host declares the placement itself
 }
 
 type rule struct {
@@ -99,15 +102,34 @@ func runCase(base string, i int, c cs) (rec, error) {
 	if c.Open == "before" {
 		pub = "/aaa"
 	}
+	if c.OPrefix == "root" && c.OAuth != "none" {
+		ann["oauth-uri-prefix"] = "/"
+	}
+	if c.Src == "service" {
+		// path scoped keys declared on the Service instead of the Ingress
+		sann := map[string]string{}
+		for _, k := range []string{"auth-url", "oauth", "oauth-uri-prefix", "auth-external-placement"} {
+			if v, ok := ann[k]; ok {
+				sann[k] = v
+				delete(ann, k)
+			}
+		}
+		p.Apply(kobj.Service("d", "app", sann, ":8080:8080"))
+	}
 	p.Apply(kobj.Ingress("d", "prot", 1, ann, nil, []kobj.Rule{{Host: "a.local", Paths: paths}}, nil, nil))
 	pubann := map[string]string{"ssl-redirect": "false"}
+	pubCreated := 2
+	if c.Elder == "backend" || c.Elder == "frontend" {
+		pubann["auth-external-placement"] = c.Elder
+		pubCreated = 0
+	}
 	if c.Cors {
 		pubann["cors-enable"] = "true"
 	}
 	if c.PubAuth {
 		pubann["auth-url"] = urls["http_ok"]
 	}
-	p.Apply(kobj.Ingress("d", "pub", 2, pubann, nil,
+	p.Apply(kobj.Ingress("d", "pub", pubCreated, pubann, nil,
 		[]kobj.Rule{{Host: "a.local", Paths: []kobj.Path{{Path: pub, Svc: "app", Port: "8080"}}}}, nil, nil))
 	if _, err := p.ReconcilePending(false); err != nil {
 		return r, err
